@@ -3,6 +3,7 @@ package rules
 import (
 	"go/constant"
 	"go/token"
+	"go/types"
 	"sort"
 	"strings"
 
@@ -290,6 +291,7 @@ func checkC09(c *km.Ctx) {
 		} else if pg != nil {
 			r.AnchorLost("R-C09-2", "prompt closure of pgpDecryptFileData")
 		}
+		checkPassphraseUnchanged(c, unseal)
 	}
 
 	// ---------------- R-C09-7 the generated sealed key is complete
@@ -461,6 +463,7 @@ func checkC09(c *km.Ctx) {
 
 	// ---------------- R-C09-6
 	checkPublishedPEMPlain(c, "R-C09-6")
+	checkPublishedJWK(c, "R-C09-6")
 	pub := c.MustFunc("R-C09-6", "cmd/keymasterd", "(*RuntimeState).signerPublicKeyToKeymasterKeys")
 	if loader != nil && pub != nil {
 		for _, cs := range c.G.Callers[loader] {
@@ -597,6 +600,42 @@ func checkPublishLoop(c *km.Ctx, pub *ssa.Function) {
 		}
 	}
 	c.R.Add("R-C09-6", km.FuncName(pub), "every signer is examined", posOf(c, fpCall), "the per-signer loop is left early only by an error return", exitDesc, okExit)
+	// (1b) the loop runs over every signer the server holds: the list it ranges over is put together here and
+	// has each crypto.Signer field of the runtime state among its elements (a signer left out of the list signs
+	// certificates nobody can verify from the published keys)
+	{
+		var want []string
+		if rs := c.P.Pkg("cmd/keymasterd"); rs != nil {
+			cur := km.CurrentTypeName(KMD + ".RuntimeState")
+			if tn, ok := rs.Pkg.Scope().Lookup(cur[strings.LastIndex(cur, ".")+1:]).(*types.TypeName); ok {
+				if st, ok := tn.Type().Underlying().(*types.Struct); ok {
+					for i := 0; i < st.NumFields(); i++ {
+						if st.Field(i).Type().String() == "crypto.Signer" {
+							want = append(want, st.Field(i).Name())
+						}
+					}
+				}
+			}
+		}
+		if len(want) < 2 {
+			c.R.AnchorLost("R-C09-6", "crypto.Signer fields of RuntimeState (Signer, Ed25519Signer)")
+		}
+		recv := km.Unwrap(fpCall.Common().Args[0]).(*ssa.Call).Common().Value
+		elems, known := localSliceElems(recv)
+		have := map[string]bool{}
+		for _, e := range elems {
+			if x, f, ok := km.FieldOfLoad(km.Unwrap(e)); ok && km.NamedTypeOf(x.Type()) == KMD+".RuntimeState" {
+				have[f] = true
+			}
+		}
+		var missing []string
+		for _, f := range want {
+			if !have[f] {
+				missing = append(missing, f)
+			}
+		}
+		c.R.Add("R-C09-6", km.FuncName(pub), "every held signer is in the list", posOf(c, fpCall), "the list the publication loop ranges over is built here and contains every crypto.Signer field of the runtime state", sprintf("list known=%v missing=%v", known, missing), known && len(missing) == 0)
+	}
 	// (2) must pass: append of this signer's key, or an edge that establishes "already published"
 	appendBlocks := map[*ssa.BasicBlock]bool{}
 	km.Instrs(pub, func(in ssa.Instruction) {
@@ -889,5 +928,146 @@ func checkPublishedPEMPlain(c *km.Ctx, rule string) {
 	}
 	if n == 0 {
 		c.R.AnchorLost(rule, "CERTIFICATE blocks encoded by the module")
+	}
+}
+
+// checkPassphraseUnchanged: "only the correct passphrase unseals": the bytes the decryption is attempted with are
+// the bytes that were submitted - the request's form value converted to bytes, handed through unsealCA and the
+// decryption routine to the prompt callback without being trimmed, folded or otherwise rewritten (any such step
+// makes a set of wrong passphrases work).
+func checkPassphraseUnchanged(c *km.Ctx, unseal *ssa.Function) {
+	r := c.R
+	pg := c.P.Func("cmd/keymasterd", "pgpDecryptFileData")
+	if pg == nil {
+		return
+	}
+	pwPg, pwUn := km.ParamAt(pg, 1), km.ParamAt(unseal, 1)
+	if pwPg == nil || pwUn == nil {
+		r.AnchorLost("R-C09-2", "passphrase parameters of pgpDecryptFileData / unsealCA")
+		return
+	}
+	isParamOf := func(v ssa.Value, p *ssa.Parameter) bool {
+		v = km.Unwrap(v)
+		if o := km.CellOrigin(v); o != nil {
+			v = km.Unwrap(o)
+		}
+		return v == ssa.Value(p)
+	}
+	// (1) the prompt hands out the routine's parameter
+	if len(pg.AnonFuncs) == 1 {
+		prompt := pg.AnonFuncs[0]
+		var mc *ssa.MakeClosure
+		km.Instrs(pg, func(in ssa.Instruction) {
+			if m, ok := in.(*ssa.MakeClosure); ok && m.Fn == ssa.Value(prompt) {
+				mc = m
+			}
+		})
+		n, good, desc := 0, true, ""
+		km.Instrs(prompt, func(in ssa.Instruction) {
+			switch x := in.(type) {
+			case *ssa.Store:
+				if _, isFV := x.Addr.(*ssa.FreeVar); isFV && x.Val.Type().String() == "[]byte" {
+					good, desc = false, "the passphrase variable is rewritten in the prompt at "+posOf(c, in)
+				}
+			case *ssa.Return:
+				if len(x.Results) == 0 || km.IsNilConst(x.Results[0]) {
+					return
+				}
+				n++
+				u, ok := km.Unwrap(x.Results[0]).(*ssa.UnOp)
+				fv, isFV := (*ssa.FreeVar)(nil), false
+				if ok {
+					fv, isFV = u.X.(*ssa.FreeVar)
+				}
+				bound := false
+				if isFV && mc != nil {
+					for i, f := range prompt.FreeVars {
+						if f == fv && i < len(mc.Bindings) {
+							if cell, isA := mc.Bindings[i].(*ssa.Alloc); isA {
+								bound = isParamOf(cell, pwPg)
+							}
+						}
+					}
+				}
+				if !bound {
+					good, desc = false, "the prompt returns "+clipS(km.ValStr(x.Results[0]), 80)
+				}
+			}
+		})
+		if desc == "" {
+			desc = sprintf("%d return(s) of the parameter itself", n)
+		}
+		r.Add("R-C09-2", km.FuncName(pg), "the prompt hands out the passphrase it was given", c.P.Pos(prompt.Pos()), "the callback returns the routine's passphrase parameter, unmodified", desc, n > 0 && good)
+	}
+	// (2) unsealCA hands its parameter to each decryption
+	nDec := 0
+	for _, f := range callsWithNewHelpersFuncs(c, unseal, 2) {
+		for _, ci := range km.CallsIn(f) {
+			if km.StaticCallee(ci.Common()) != pg {
+				continue
+			}
+			nDec++
+			a := km.CallArgs(ci.Common())
+			ok := false
+			switch {
+			case f == unseal:
+				ok = isParamOf(a[1], pwUn)
+			default:
+				// a helper new to the tree: its own parameter, which unsealCA fills with the passphrase
+				if hp, isP := km.Unwrap(a[1]).(*ssa.Parameter); isP {
+					ok = true
+					idx := -1
+					for i, q := range f.Params {
+						if q == hp {
+							idx = i
+						}
+					}
+					for _, cs := range c.G.Callers[f] {
+						ca := cs.Instr.(ssa.CallInstruction).Common().Args
+						if cs.Caller != unseal || idx < 0 || idx >= len(ca) || !isParamOf(ca[idx], pwUn) {
+							ok = false
+						}
+					}
+				}
+			}
+			r.Add("R-C09-2", km.FuncName(f), "decryption attempted with the submitted passphrase", posOf(c, ci), "pgpDecryptFileData(file, <unsealCA's passphrase parameter, as received>)", clipS(km.ValStr(a[1]), 100), ok)
+		}
+	}
+	if nDec == 0 {
+		r.AnchorLost("R-C09-2", "calls of pgpDecryptFileData from unsealCA")
+	}
+	// (3) the request handler passes the form value as it came
+	if h := c.P.Func("cmd/keymasterd", "(*RuntimeState).secretInjectorHandler"); h != nil {
+		n := 0
+		for _, cs := range c.G.Callers[unseal] {
+			if cs.Caller != h {
+				continue
+			}
+			n++
+			a := km.CallArgs(cs.Instr.(ssa.CallInstruction).Common())
+			v := km.Unwrap(a[1])
+			if cv, isCv := v.(*ssa.Convert); isCv {
+				v = km.Unwrap(cv.X)
+			}
+			ok := derivesFromFormValue(v, "ssh_ca_password", 0)
+			if u, isU := v.(*ssa.UnOp); isU && u.Op == token.MUL {
+				// r.Form["ssh_ca_password"][0]
+				if ia, isIA := u.X.(*ssa.IndexAddr); isIA {
+					base := km.Unwrap(ia.X)
+					if ex, isEx := base.(*ssa.Extract); isEx {
+						base = ex.Tuple
+					}
+					if lk, isLk := base.(*ssa.Lookup); isLk {
+						k, isK := km.ConstString(lk.Index)
+						i0, isI := km.ConstInt(ia.Index)
+						ok = isK && k == "ssh_ca_password" && isI && i0 == 0
+					}
+				}
+			}
+			r.Add("R-C09-2", km.FuncName(h), "the handler passes the posted passphrase as it came", posOf(c, cs.Instr), "unsealCA([]byte(<form value ssh_ca_password>), …)", clipS(km.ValStr(a[1]), 100), ok)
+		}
+		if n == 0 {
+			r.AnchorLost("R-C09-2", "call of unsealCA in secretInjectorHandler")
+		}
 	}
 }
